@@ -3,7 +3,7 @@
 From Coq Require Import String List Bool Arith Permutation.
 From Coca Require Import Lib.Sx Lib.GoMap Lib.Str Model.CodeModel Model.JavaFull Model.JavaFactsCodec Model.JavaIdent
      Model.ApiScan Model.BadSmell Model.RCall Model.CallGraph Proofs.JavaFullProofs Proofs.ApiProofs
-     Proofs.IndependenceProofs Entry.C07.
+     Proofs.IndependenceProofs Proofs.JavaIdentProofs Proofs.EntriesProofs Entry.C07.
 Import ListNotations.
 Open Scope string_scope.
 
@@ -34,6 +34,27 @@ Theorem C07_other_files_irrelevant : forall (U E : Type) (per : U -> list E) u l
     In u l -> exists a b, flat_map per l = (a ++ per u ++ b)%list.
 Proof. exact (fun U E => @per_file_superset U E). Qed.
 Print Assumptions C07_other_files_irrelevant.
+
+(* 3b. what the check compares: the entries grouped under a file's key (package.name). In every run - any
+       listener state before, any selection with distinct keys that contains the unit, any order - they are
+       exactly the entries the unit yields on its own; and a run yields entries for the processed files only *)
+Theorem C07_ident_entries_of_file : forall st us u,
+    named_units us -> NoDup (map unit_key us) -> In u us ->
+    filter (fun e => String.eqb (ds_full_name e) (unit_key u)) (snd (ident_files st us)) = ident_of_file u.
+Proof. exact ident_entries_of_file. Qed.
+Print Assumptions C07_ident_entries_of_file.
+
+Theorem C07_full_entries_of_file : forall st ids us u,
+    s_hasEnterClass st = false -> NoDup (map unit_key us) -> In u us ->
+    filter (fun e => String.eqb (ds_full_name e) (unit_key u)) (snd (analysis_files st ids us)) = full_of_file ids u.
+Proof. exact full_entries_of_file. Qed.
+Print Assumptions C07_full_entries_of_file.
+
+Theorem C07_no_foreign_entry : forall (U E : Type) (per : U -> list E) (ukey : U -> string) (ekey : E -> string),
+    (forall u e, In e (per u) -> ekey e = ukey u) ->
+    forall us e, In e (flat_map per us) -> In (ekey e) (map ukey us).
+Proof. exact (fun U E => @no_foreign_entry U E). Qed.
+Print Assumptions C07_no_foreign_entry.
 
 (* 4. bad smells are found per file; the API scan does not depend on the listener state left behind *)
 Theorem C07_bad_smell_per_file : forall a b ignore,
